@@ -49,6 +49,10 @@ SHAPES = {
                   "sources": ["s1", "g1"]},
     # dependency edges are rewired (see RESHAPE): T3 moves from T2 to T1
     "rewire": {"targets": {"T1": T(srcs=["s1"]), "T2": T(srcs=["s2"]), "T3": T(deps=["T2"])}, "sources": ["s1", "s2"]},
+    # a generator whose dependent reaches it through deps, not through the generated file
+    "gendep": {"targets": {"T1": T(srcs=["s1"], gens=["g1"]), "T2": T(deps=["T1"]), "T3": T(deps=["T2"], srcs=["g1"])}, "sources": ["s1", "g1"]},
+    # names with characters that are special in URLs and file names
+    "plus": {"targets": {"T1": T(srcs=["a+b"], pkg="c++"), "T2": T(deps=["T1"], srcs=["x y"], pkg="p q"), "T3": T(deps=["T2"])}, "sources": ["a+b", "x y"]},
     # an edge disappears (see RESHAPE): T2 no longer depends on T1
     "unwire": {"targets": {"T1": T(srcs=["s1"]), "T2": T(deps=["T1"], srcs=["s2"])}, "sources": ["s1", "s2"]},
     # names that are string prefixes of one another; T1 and source r go away (see RESHAPE)
@@ -276,11 +280,11 @@ def harness_cases(tier, sd):
         cases.append(c)
 
     # (a) atom kinds x value classes: every edit of a referenced value must re-execute
-    kinds = ["", "const", "default", "closure", "helper", "nested", "module", "modfn", "flag"]
-    classes = ["", "int16", "int32", "str", "tuple", "dict", "float", "intfloat"]
+    kinds = ["", "const", "default", "closure", "helper", "nested", "module", "modfn", "recursive", "flag"]
+    classes = ["", "int16", "int32", "str", "tuple", "dict", "float", "intfloat", "dictorder"]
     for k in kinds:
         for v in classes:
-            if quick and k != "flag" and (kinds.index(k) + classes.index(v)) % 3 != sd % 3 and not (k == "" or v in ("int16", "intfloat")):
+            if quick and k != "flag" and (kinds.index(k) + classes.index(v)) % 3 != sd % 3 and not (k == "" or v in ("int16", "intfloat", "dictorder")):
                 continue
             shape = json.loads(json.dumps(SHAPES["chain"]))
             if k == "flag":
@@ -378,6 +382,13 @@ def harness_cases(tier, sd):
     # an always-target that stops being one after a dry run
     add("dry", "alwaysoff", [B("T2"), B("T2", "dry"), {"op": "reshape"}, B("T2"), B("T2")], twin="dry")
     add("dry", "alwaysoff", [B("T2"), {"op": "reshape"}, B("T2"), B("T2")])
+    # comment / whitespace edits above recursive helpers
+    rsh = json.loads(json.dumps(SHAPES["chain"]))
+    for t in rsh["targets"].values():
+        t["kind"] = "recursive"
+    cases.append({"id": "non-recursive-%d" % len(cases), "shape": rsh, "seed": 0,
+                  "steps": [B("T2"), {"op": "nonedit", "kind": "comment"}, B("T2"), {"op": "nonedit", "kind": "comment"}, B("T2"),
+                            {"op": "edit_env", "t": "T1"}, B("T2"), B("T2")]})
     # watch mode itself: Project.Watch runs while the tree is edited, also in the middle of a build
     # (a body is held after it has read its inputs); judged when watch mode has settled
     def W(root, *script):
@@ -404,7 +415,7 @@ def harness_cases(tier, sd):
                  "steps": [dict(B(top), clean=False), dict(B(top, "dry"), clean=False), dict(B(top, rerun=True), clean=False)]}
             cases.append(c)
     # (c) systematic crash enumeration: every point x label x hit on selected shapes
-    crash_shapes = ["chain", "generated"] if quick else ["chain", "generated", "diamond", "twopkg", "always"]
+    crash_shapes = ["chain", "generated", "gendep"] if quick else ["chain", "generated", "gendep", "diamond", "twopkg", "always"]
     for name in crash_shapes:
         shape = SHAPES[name]
         top = roots_of(shape)[0]
@@ -428,7 +439,7 @@ def harness_cases(tier, sd):
                         add("crash", name, [B(top), es, B(top, crash=cr), es, B(top, fail=[sorted(shape["targets"])[0]]), B(top), B(top)])
     # (d) random histories
     for i in range(40 if quick else 600):
-        name = rnd.choice(list(SHAPES))
+        name = rnd.choice([n for n in SHAPES if n != "unwire"])    # (its from-scratch builds are not comparable)
         shape = SHAPES[name]
         steps = []
         nb = 0
